@@ -1379,3 +1379,59 @@ def starttime_probe(t_fill, t_regen):
     finally:
         CG.time = real_time
         shutil.rmtree(base, ignore_errors=True)
+
+
+def beaker_probe(cfg):
+    """the real Beaker plugin with the real Beaker: (1) a template replaced under its URI does not replay its predecessor's cached
+    output (the plugin hands Beaker the compile time of the module as starttime), whichever way the section is configured
+    (plain / timeout / region); (2) cache files are written to the directory the innermost configuration level names (section
+    over <%page> over Template cache_args), else to the module directory.  returns {"outputs": ..., "files_in": ...} and the
+    expectations"""
+    import os
+    import shutil
+    import tempfile
+    import time
+    try:
+        from beaker import cache as bc
+    except ImportError:
+        return None
+    from mako.ext import beaker_cache as BC
+    from mako.lookup import TemplateLookup
+    if cfg["dir_level"] == "none" and not cfg["module_directory"] and cfg["section"] != "region":
+        return "file-backed cache without any directory: not a valid configuration"
+    base = tempfile.mkdtemp(prefix="c17beaker")
+    saved = BC._beaker_cache
+    try:
+        dirs = {k: os.path.join(base, k) for k in ("template", "page", "section", "modules", "region")}
+        regions = {"short": {"type": "file" if cfg["dir_level"] != "memory" else "memory", "expire": 600, "data_dir": dirs["region"],
+                             "lock_dir": dirs["region"] + "-lock"}}
+        BC._beaker_cache = None
+        args = {"manager": bc.CacheManager(cache_regions=regions)}
+        if cfg["dir_level"] != "memory":
+            args["type"] = "file"
+        if cfg["dir_level"] in ("template", "page", "section"):
+            args["dir"] = dirs["template"]
+        sect = {"plain": "", "timeout": ' cache_timeout="600"', "region": ' cache_region="short"'}[cfg["section"]]
+        page = '<%page cache_dir="' + dirs["page"] + '"/>' if cfg["dir_level"] in ("page", "section") else ""
+        sdir = ' cache_dir="' + dirs["section"] + '"' if cfg["dir_level"] == "section" else ""
+        src = lambda v: page + '<%def name="d()" cached="True"' + sect + sdir + '>' + v + '</%def>${d()}'
+        lk = TemplateLookup(cache_args=args, module_directory=dirs["modules"] if cfg["module_directory"] else None)
+        lk.put_string("/t", src("first"))
+        out = [lk.get_template("/t").render(), lk.get_template("/t").render()]
+        time.sleep(0.02)
+        lk.put_string("/t", src("second"))            # a new Template under the same URI (same cache namespace)
+        out.append(lk.get_template("/t").render())
+        want_out = ["first", "first", "second"]
+        used = sorted(k for k, d in dirs.items() if os.path.isdir(d) and any(f for _r, _d, fs in os.walk(d) for f in fs if not f.endswith(".py")))
+        if cfg["dir_level"] == "memory":
+            want_dirs = []
+        elif cfg["section"] == "region":
+            want_dirs = None           # a region brings its own directory: not asserted
+        elif cfg["dir_level"] in ("template", "page", "section"):
+            want_dirs = [cfg["dir_level"]]
+        else:
+            want_dirs = ["modules"] if cfg["module_directory"] else None
+        return dict(outputs=out, want_outputs=want_out, dirs=used, want_dirs=want_dirs)
+    finally:
+        BC._beaker_cache = saved
+        shutil.rmtree(base, ignore_errors=True)
